@@ -177,6 +177,58 @@ func runC18(t *testing.T, res *common.Result, rng *common.Rng) {
 		c18History(t, res, rng.Fork(uint64(h)), h, cfgs[h%len(cfgs)])
 	}
 	c18DuringStartup(t, res)
+	c18AwkwardNames(t, res, rng.Fork(777))
+}
+
+// c18AwkwardNames: "given a name alone, or a name and key" - for every name a client can lock, including names
+// the shell or the tool's own option parser could take for something else: beginning with a dash (they are
+// passed after the end-of-options marker "--", the only way to pass them), containing spaces, equal to a
+// command word. Each is locked over gRPC, listed, unlocked through the tool, and must be gone afterwards.
+func c18AwkwardNames(t *testing.T, res *common.Result, rng *common.Rng) {
+	srv := startServer(t, srvCfg{})
+	if !srv.started {
+		t.Fatalf("server did not start: %v", srv.logTail(40))
+	}
+	defer srv.kill()
+	g := &grpcT{g: dialGrpc(t, srv.grpcAddr, nil)}
+	defer g.g.close()
+	sfx := randName(rng, "")
+	for i, base := range []string{"-batch", "--nightly", "-s", "unlock", "list", "two words", "--", "-"} {
+		for _, withKey := range []bool{false, true} {
+			name := base
+			if base != "--" && base != "-" {
+				name = base + sfx
+			}
+			o := g.tryLock(lockArgs{name: name, lockTO: i32(60)})
+			if !o.Flag {
+				res.Note("C18 awkward names: TryLock(%q) over gRPC was not granted (%+v); skipped", name, o)
+				continue
+			}
+			args := []string{"unlock", "--", name}
+			if withKey {
+				args = append(args, o.Key)
+			}
+			out := runAdmin(srv.sock, args...)
+			res.Count("awkward-name-unlock")
+			res.Eval(fmt.Sprintf("c18awkward|%d|key=%v", i, withKey), true)
+			listed, _, ok := adminList(srv.sock)
+			still := !ok
+			for _, h := range listed {
+				still = still || h.Name == name && h.Key == o.Key
+			}
+			probe := g.tryLock(lockArgs{name: name})
+			if probe.Flag {
+				g.unlock(name, probe.Key)
+			}
+			if still || !probe.Flag {
+				res.Find(common.Finding{Kind: "violation", Property: "C18", Signature: "stack:ipc:unlock:awkward-name",
+					What: fmt.Sprintf("`ldlm-lock %s` on the live hold %q (key %s) printed %q (exit %d); afterwards the hold is still listed: %v, a TryLock of the name is granted: %v - the unlock command releases the hold it names, whatever the name looks like",
+						strings.Join(args, " "), name, o.Key, strings.TrimSpace(out.Stdout+" "+out.Stderr), out.Code, still, probe.Flag),
+					Replay: map[string]any{"server_flags": srv.args, "steps": []string{fmt.Sprintf("grpc TryLock name=%q lock_timeout=60 -> key=%s", name, o.Key), "ldlm-lock --socket <sock> " + strings.Join(args, " "), "ldlm-lock list", fmt.Sprintf("grpc TryLock name=%q -> locked=%v", name, probe.Flag)}}})
+				g.unlock(name, o.Key)
+			}
+		}
+	}
 }
 
 // c18DuringStartup: the admin socket is part of "a running server" from the moment it accepts
